@@ -163,15 +163,12 @@ theorem fixLoop_invA (S : Sys) (hwf : WF S) (m mb : Rat) (hm : 0 < m) (sv : List
       · rw [div_mul_cancel₀ _ (ne_of_gt hpv)]
       · intro hb; rw [div_le_iff₀ hpv]; exact hmb1 hmb v (by simp) hb
     · have hmbp := hmb2 hmb
-      by_cases heq : dblEq mb ((S.var v).bound * (S.var v).penalty) 0 = true
-      · rw [fixLoop_eq S 0 mb m st v rest hmb heq]
-        have heq' := (dblEq_zero _ _).mp heq
-        have hb : 0 < (S.var v).bound := by
-          by_contra h
-          have : (S.var v).bound * (S.var v).penalty ≤ 0 := mul_nonpos_of_nonpos_of_nonneg (by linarith) (le_of_lt hpv)
-          linarith [hmbp.1]
+      by_cases hc : 0 < (S.var v).bound ∧ dblEq mb ((S.var v).bound * (S.var v).penalty) 0 = true
+      · rw [fixLoop_eq S 0 mb m st v rest hmb hc]
+        have heq' := (dblEq_zero _ _).mp hc.2
+        have hb : 0 < (S.var v).bound := hc.1
         exact step (S.var v).bound hb (by linarith [hmbp.2]) (fun _ => le_refl _)
-      · rw [fixLoop_skip S 0 mb m st v rest hmb heq]
+      · rw [fixLoop_skip S 0 mb m st v rest hmb hc]
         exact ih st hG hK hL (fun u hu => hsv u (by simp [hu])) hnd'
           (fun h u hu => hmb1 h u (by simp [hu])) hmb2 hA
 
